@@ -106,6 +106,7 @@ type Exec struct {
 	nowSeq    int
 	lastNow   *Term
 	goroutine int
+	callee    *ssa.Function // the function an intrinsic stands in for (type arguments of generic instantiations)
 	gids      []int
 	gidNext   int
 	stack     []*ssa.Function
